@@ -1,6 +1,7 @@
 #![allow(dead_code)]
 mod checks;
 mod engine;
+mod explore;
 mod refm;
 mod repo_tests;
 mod runner;
